@@ -98,25 +98,37 @@ def oracle_ensemble(case, ctx):
                 m.update(b.copy(), update_params=up)
             outs.append([m.predict(fh_obj(case, cutoff) if case["fh_mode"] == "abs" else None) for m in ms])
         res = []
-        for preds in outs:
+        for stage, preds in enumerate(outs):
             M = np.column_stack([p.to_numpy(dtype=float) for p in preds])
             if spec["kind"] == "online_ensemble":
-                v = (M * (np.ones(M.shape[1]) / M.shape[1])).sum(axis=1)
+                # the weighted sum of the members' forecasts, with the weights the ensemble
+                # algorithm holds at that point (uniform 1/n without an algorithm)
+                w = learned[stage] if stage < len(learned) and learned[stage] is not None else np.ones(M.shape[1]) / M.shape[1]
+                v = (M * np.asarray(w, dtype=float)).sum(axis=1)
             else:
                 v = AGG[spec.get("aggfunc", "mean")](M, axis=1)
             res.append(pd.Series(v, index=preds[0].index))
         return res
 
-    exp = sut(parts)
+    learned = []
+
+    def weights_now():
+        alg = getattr(f, "ensemble_algorithm", None)
+        return None if alg is None else np.array(alg.weights, dtype=float).copy()
+
     f = pools.build_forecaster(spec)
+    if spec.get("algorithm"):
+        ctx.label("online_algorithm:%s" % spec["algorithm"])
     discs = []
     cutoff = y0.index[-1]
     r = sut(f.fit, y0.copy(), None, fh_obj(case, cutoff))
     if isinstance(r, Raised):
+        exp = sut(parts)
         if isinstance(exp, Raised):
             ctx.mark_rejected()
             return []
         return [D("composite_raised:fit:%s@%s" % (r.type, r.where), "%s: %s" % (desc, r.msg))]
+    learned.append(weights_now())
     got = [sut(f.predict)]
     for b in batches:
         cutoff = b.index[-1]
@@ -124,7 +136,9 @@ def oracle_ensemble(case, ctx):
         if isinstance(u, Raised):
             got.append(u)
             break
+        learned.append(weights_now())
         got.append(sut(f.predict, fh_obj(case, cutoff) if case["fh_mode"] == "abs" else None))
+    exp = sut(parts)
     if isinstance(exp, Raised):
         if not all(isinstance(g, Raised) for g in got[-1:]):
             return [D("composite_succeeds_where_parts_fail:ensemble", "%s: parts raised %r" % (desc, exp))]
@@ -495,6 +509,11 @@ def ensemble_cases(draw):
         c["updates"] = []
     if kind == "online_ensemble":
         c["update_params"] = False
+        alg = draw(st.sampled_from([None, "nnls", "nnls"]))  # (NormalHedge is not generated: it fails numerically when no member has positive regret)
+        # (the algorithms score the members on every new batch with a horizon of their own: members
+        # tied to the horizon of fit cannot be used; hedging needs at least two experts)
+        if len(members) >= 2 and not any(pools.needs_fh_in_fit(m) for m in members):
+            spec["algorithm"] = alg
     return c
 
 
